@@ -313,6 +313,9 @@ func (s *Series) store(t int64, v Val, required bool) {
 	p.add(v, required)
 }
 
+// StoreOptional records a value that may be returned for (series, t) without requiring it.
+func (s *Series) StoreOptional(t int64, v Val) { s.store(t, v, false) }
+
 // Commit models Appender.Commit: accepted samples are re-checked in append order.
 // The reject option is an append-time fast path only; at commit an OOO sample is stored OOO.
 func (m *Model) Commit(a *Appender) {
